@@ -1,17 +1,41 @@
 import Mp4ff.Model.AvcSps
 import Mp4ff.Lemmas.C13Seq
-import Mp4ff.Lemmas.C15Inv
-import Mp4ff.Lemmas.C15Names
-import Mp4ff.Lemmas.C15Sps
 import Mp4ff.Props.C13
+import Mp4ff.Lemmas.C16Inv
+import Mp4ff.Lemmas.C16Names
+import Mp4ff.Lemmas.C16Sps
 /-!
-C15 (parameter sets parse to the values that were coded): all statements proved, except `dims_eq_std`, which is
-FALSE as written (counterexample below); `dims_eq_std_partial` (explicit side condition) and `dims_eq_std_sps`
-(every valid trace of the SPS syntax) are proved instead.
-Helper lemmas: `Mp4ff/Lemmas/C15Inv.lean`, `C15Names.lean`, `C15Sps.lean`.
+C15/C16: the bitstream-syntax DSL (capped repetitions, seterr, abort): generic round trip, totality and bounded output;
+the AVC SPS instance.  Restated in Props/C15.lean and Props/C16.lean.
 -/
 namespace Mp4ff.BitSyn
 open Mp4ff.Bits
+
+mutual
+/-- static bound on the number of values a syntax can yield -/
+def maxEntries : Syn → Nat
+  | .fld _ _ | .flag _ | .ue _ | .se _ => 1
+  | .cond _ body => maxEntriesL body
+  | .rep cap _ body => cap * maxEntriesL body
+  | .seterr _ => 0
+  | .abort _ => 1
+def maxEntriesL : List Syn → Nat
+  | [] => 0
+  | s :: rest => maxEntries s + maxEntriesL rest
+end
+
+mutual
+/-- static bound on the fuel a syntax needs -/
+def fuelNeed : Syn → Nat
+  | .fld _ _ | .flag _ | .ue _ | .se _ | .seterr _ | .abort _ => 1
+  | .cond _ body => 1 + fuelNeedL body
+  | .rep cap _ body => 1 + cap * (1 + fuelNeedL body)
+def fuelNeedL : List Syn → Nat
+  | [] => 1
+  | s :: rest => fuelNeed s + fuelNeedL rest
+end
+
+
 
 /-- the serialiser consumes a prefix of `src` and appends exactly that prefix to `acc` -/
 theorem ops_trace (f : Nat) : ∀ (L : List Syn) (acc src : Trace) (os : List Op) (acc' src' : Trace),
@@ -44,25 +68,33 @@ theorem ops_trace (f : Nat) : ∀ (L : List Syn) (acc src : Trace) (os : List Op
         obtain ⟨u2, rfl, rfl⟩ := ih _ _ _ _ _ _ h2
         exact ⟨u1 ++ u2, by simp, by simp⟩
       · exact ih _ _ _ _ _ _ h2
-    | .rep n body :: rest =>
+    | .rep cap n body :: rest =>
       rcases ops_rep_inv h with ⟨_, h2⟩ | ⟨k, o1, a1, s1, o2, _, h1, h2, _⟩
       · exact ih _ _ _ _ _ _ h2
       · obtain ⟨u1, rfl, rfl⟩ := ih _ _ _ _ _ _ h1
         obtain ⟨u2, rfl, rfl⟩ := ih _ _ _ _ _ _ h2
         exact ⟨u1 ++ u2, by simp, by simp⟩
+    | .seterr p :: rest => exact ih _ _ _ _ _ _ (ops_seterr_inv h).2
+    | .abort p :: rest => exact ih _ _ _ _ _ _ (ops_abort_inv h).2
 
-/-- **generic round trip**: reading, with the emulation-removing reader, the bits that the primitive operations of
-    a serialised trace occupy gives back exactly that trace, consumes exactly those bits and raises no error — for
-    every syntax (any nesting of conditions and repetitions over earlier values) -/
+theorem ops_stopped_prefix {f : Nat} {L : List Syn} {acc src : Trace} {os acc' src'}
+    (h : ops f L acc src = some (os, acc', src')) (hst : stopped acc' = false) : stopped acc = false := by
+  obtain ⟨u, _, rfl⟩ := ops_trace f L acc src os acc' src' h
+  exact stopped_of_append_left hst
+
+/-- **generic round trip** on the bit level (extended DSL): reading the bits of a serialised trace gives back the
+    trace; `stopped = false` is an invariant along the way since every accumulated trace is a prefix of the result -/
 theorem parse_ops (f : Nat) : ∀ (L : List Syn) (acc src : Trace) (os : List Op) (acc' src' : Trace)
     (e : ER) (P : Bytes) (tail : List Bool),
-    ops f L acc src = some (os, acc', src') → (∀ op ∈ os, op.OK) → e.Inv P → e.abs P = opsBits os ++ tail →
+    ops f L acc src = some (os, acc', src') → stopped acc' = false →
+    (∀ op ∈ os, op.OK) → e.Inv P → e.abs P = opsBits os ++ tail →
     ∃ e' P', parse f L acc e = some (acc', e') ∧ e'.Inv P' ∧ e'.abs P' = tail ∧
       e'.nread + e'.rest.length = e.nread + e.rest.length := by
   induction f with
   | zero => intro L acc src os acc' src' e P tail h; simp [ops] at h
   | succ f ih =>
-    intro L acc src os acc' src' e P tail h hok he habs
+    intro L acc src os acc' src' e P tail h hst hok he habs
+    have hs : stopped acc = false := ops_stopped_prefix h hst
     match L with
     | [] =>
       obtain ⟨rfl, rfl, rfl⟩ := ops_nil_inv h
@@ -72,106 +104,76 @@ theorem parse_ops (f : Nat) : ∀ (L : List Syn) (acc src : Trace) (os : List Op
       simp only [opsBits, List.append_assoc] at habs
       obtain ⟨P1, a1, a2, a3, a4⟩ := ER.readOp_spec e P (Op.fld k v.toNat) _ (hok _ (by simp)) he habs
       simp only [ER.readOp, Op.value] at a1 a2 a3 a4
-      obtain ⟨e', P', b1, b2, b3, b4⟩ := ih _ _ _ _ _ _ _ P1 tail hr (fun op h => hok op (by simp [h])) a2 a3
+      obtain ⟨e', P', b1, b2, b3, b4⟩ := ih _ _ _ _ _ _ _ P1 tail hr hst (fun op h => hok op (by simp [h])) a2 a3
       refine ⟨e', P', ?_, b2, b3, by omega⟩
-      rw [parse_fld, a1, Int.toNat_of_nonneg hv]; exact b1
+      rw [parse_fld _ _ _ _ _ _ hs, a1, Int.toNat_of_nonneg hv]; exact b1
     | .flag nm :: rest =>
       obtain ⟨v, s0, o, rfl, hv, hr, rfl⟩ := ops_flag_inv h
       simp only [opsBits, List.append_assoc] at habs
       obtain ⟨P1, a1, a2, a3, a4⟩ := ER.readOp_spec e P (Op.flag (v == 1)) _ (hok _ (by simp)) he habs
       simp only [ER.readOp, Op.value] at a1 a2 a3 a4
-      obtain ⟨e', P', b1, b2, b3, b4⟩ := ih _ _ _ _ _ _ _ P1 tail hr (fun op h => hok op (by simp [h])) a2 a3
+      obtain ⟨e', P', b1, b2, b3, b4⟩ := ih _ _ _ _ _ _ _ P1 tail hr hst (fun op h => hok op (by simp [h])) a2 a3
       refine ⟨e', P', ?_, b2, b3, by omega⟩
       have hv' : (if (v == 1) = true then (1 : Int) else 0) = v := by
         rcases hv with rfl | rfl <;> simp
-      rw [parse_flag, a1, hv']; exact b1
+      rw [parse_flag _ _ _ _ _ hs, a1, hv']; exact b1
     | .ue nm :: rest =>
       obtain ⟨v, s0, o, rfl, hv, hr, rfl⟩ := ops_ue_inv h
       simp only [opsBits, List.append_assoc] at habs
       obtain ⟨P1, a1, a2, a3, a4⟩ := ER.readOp_spec e P (Op.ue v.toNat) _ (hok _ (by simp)) he habs
       simp only [ER.readOp, Op.value] at a1 a2 a3 a4
-      obtain ⟨e', P', b1, b2, b3, b4⟩ := ih _ _ _ _ _ _ _ P1 tail hr (fun op h => hok op (by simp [h])) a2 a3
+      obtain ⟨e', P', b1, b2, b3, b4⟩ := ih _ _ _ _ _ _ _ P1 tail hr hst (fun op h => hok op (by simp [h])) a2 a3
       refine ⟨e', P', ?_, b2, b3, by omega⟩
-      rw [parse_ue, a1, Int.toNat_of_nonneg hv]; exact b1
+      rw [parse_ue _ _ _ _ _ hs, a1, Int.toNat_of_nonneg hv]; exact b1
     | .se nm :: rest =>
       obtain ⟨v, s0, o, rfl, hr, rfl⟩ := ops_se_inv h
       simp only [opsBits, List.append_assoc] at habs
       obtain ⟨P1, a1, a2, a3, a4⟩ := ER.readOp_spec e P (Op.se v) _ (hok _ (by simp)) he habs
       simp only [ER.readOp, Op.value] at a1 a2 a3 a4
-      obtain ⟨e', P', b1, b2, b3, b4⟩ := ih _ _ _ _ _ _ _ P1 tail hr (fun op h => hok op (by simp [h])) a2 a3
+      obtain ⟨e', P', b1, b2, b3, b4⟩ := ih _ _ _ _ _ _ _ P1 tail hr hst (fun op h => hok op (by simp [h])) a2 a3
       refine ⟨e', P', ?_, b2, b3, by omega⟩
-      rw [parse_se, a1]; exact b1
+      rw [parse_se _ _ _ _ _ hs, a1]; exact b1
     | .cond p body :: rest =>
       rcases ops_cond_inv h with ⟨hp, o1, a1, s1, o2, h1, h2, rfl⟩ | ⟨hp, h2⟩
       · rw [opsBits_append, List.append_assoc] at habs
-        obtain ⟨e1, P1, b1, b2, b3, b4⟩ := ih _ _ _ _ _ _ e P _ h1 (fun op h => hok op (by simp [h])) he habs
-        obtain ⟨e2, P2, c1, c2, c3, c4⟩ := ih _ _ _ _ _ _ e1 P1 tail h2 (fun op h => hok op (by simp [h])) b2 b3
+        have hs1 := ops_stopped_prefix h2 hst
+        obtain ⟨e1, P1, b1, b2, b3, b4⟩ := ih _ _ _ _ _ _ e P _ h1 hs1 (fun op h => hok op (by simp [h])) he habs
+        obtain ⟨e2, P2, c1, c2, c3, c4⟩ := ih _ _ _ _ _ _ e1 P1 tail h2 hst (fun op h => hok op (by simp [h])) b2 b3
         refine ⟨e2, P2, ?_, c2, c3, by omega⟩
-        rw [parse_cond_true f p body rest acc e hp b1]; exact c1
-      · obtain ⟨e2, P2, c1, c2, c3, c4⟩ := ih _ _ _ _ _ _ e P tail h2 hok he habs
-        exact ⟨e2, P2, by rw [parse_cond_false f p body rest acc e hp]; exact c1, c2, c3, c4⟩
-    | .rep n body :: rest =>
+        rw [parse_cond_true f p body rest acc e hs hp b1]; exact c1
+      · obtain ⟨e2, P2, c1, c2, c3, c4⟩ := ih _ _ _ _ _ _ e P tail h2 hst hok he habs
+        exact ⟨e2, P2, by rw [parse_cond_false f p body rest acc e hs hp]; exact c1, c2, c3, c4⟩
+    | .rep cap n body :: rest =>
       rcases ops_rep_inv h with ⟨hn, h2⟩ | ⟨k, o1, a1, s1, o2, hn, h1, h2, rfl⟩
-      · obtain ⟨e2, P2, c1, c2, c3, c4⟩ := ih _ _ _ _ _ _ e P tail h2 hok he habs
-        exact ⟨e2, P2, by rw [parse_rep_zero f n body rest acc e hn]; exact c1, c2, c3, c4⟩
+      · obtain ⟨e2, P2, c1, c2, c3, c4⟩ := ih _ _ _ _ _ _ e P tail h2 hst hok he habs
+        exact ⟨e2, P2, by rw [parse_rep_zero f cap n body rest acc e hs hn]; exact c1, c2, c3, c4⟩
       · rw [opsBits_append, List.append_assoc] at habs
-        obtain ⟨e1, P1, b1, b2, b3, b4⟩ := ih _ _ _ _ _ _ e P _ h1 (fun op h => hok op (by simp [h])) he habs
-        obtain ⟨e2, P2, c1, c2, c3, c4⟩ := ih _ _ _ _ _ _ e1 P1 tail h2 (fun op h => hok op (by simp [h])) b2 b3
+        have hs1 := ops_stopped_prefix h2 hst
+        obtain ⟨e1, P1, b1, b2, b3, b4⟩ := ih _ _ _ _ _ _ e P _ h1 hs1 (fun op h => hok op (by simp [h])) he habs
+        obtain ⟨e2, P2, c1, c2, c3, c4⟩ := ih _ _ _ _ _ _ e1 P1 tail h2 hst (fun op h => hok op (by simp [h])) b2 b3
         refine ⟨e2, P2, ?_, c2, c3, by omega⟩
-        rw [parse_rep_succ f n body rest acc e hn b1]; exact c1
+        rw [parse_rep_succ f cap n body rest acc e hs hn b1]; exact c1
+    | .seterr p :: rest =>
+      obtain ⟨hp, h2⟩ := ops_seterr_inv h
+      obtain ⟨e2, P2, c1, c2, c3, c4⟩ := ih _ _ _ _ _ _ e P tail h2 hst hok he habs
+      refine ⟨e2, P2, ?_, c2, c3, c4⟩
+      rw [parse_seterr f p rest acc e hs, hp]; exact c1
+    | .abort p :: rest =>
+      obtain ⟨hp, h2⟩ := ops_abort_inv h
+      obtain ⟨e2, P2, c1, c2, c3, c4⟩ := ih _ _ _ _ _ _ e P tail h2 hst hok he habs
+      refine ⟨e2, P2, ?_, c2, c3, c4⟩
+      rw [parse_abort_false f p rest acc e hs hp]; exact c1
 
-
-/-- more fuel never changes a result -/
-theorem parse_fuel_mono (f g : Nat) (hfg : f ≤ g) : ∀ (L : List Syn) (acc : Trace) (e : ER) r,
-    parse f L acc e = some r → parse g L acc e = some r := by
-  induction f generalizing g with
-  | zero => intro L acc e r h; simp [parse] at h
-  | succ f ih =>
-    intro L acc e r h
-    obtain ⟨g, rfl⟩ : ∃ g', g = g' + 1 := ⟨g - 1, by omega⟩
-    have hfg' : f ≤ g := by omega
-    match L with
-    | [] => simpa [parse] using h
-    | .fld nm k :: rest => rw [parse_fld] at h ⊢; exact ih g hfg' _ _ _ _ h
-    | .flag nm :: rest => rw [parse_flag] at h ⊢; exact ih g hfg' _ _ _ _ h
-    | .ue nm :: rest => rw [parse_ue] at h ⊢; exact ih g hfg' _ _ _ _ h
-    | .se nm :: rest => rw [parse_se] at h ⊢; exact ih g hfg' _ _ _ _ h
-    | .cond p body :: rest =>
-      cases hp : p acc with
-      | false =>
-        rw [parse_cond_false _ _ _ _ _ _ hp] at h ⊢; exact ih g hfg' _ _ _ _ h
-      | true =>
-        cases h1 : parse f body acc e with
-        | none => simp [parse, hp, h1] at h
-        | some r1 =>
-          obtain ⟨a1, e1⟩ := r1
-          rw [parse_cond_true _ _ _ _ _ _ hp h1] at h
-          rw [parse_cond_true _ _ _ _ _ _ hp (ih g hfg' _ _ _ _ h1)]
-          exact ih g hfg' _ _ _ _ h
-    | .rep n body :: rest =>
-      cases hn : n acc with
-      | zero =>
-        rw [parse_rep_zero _ _ _ _ _ _ hn] at h ⊢; exact ih g hfg' _ _ _ _ h
-      | succ k =>
-        cases h1 : parse f body acc e with
-        | none => simp [parse, hn, h1] at h
-        | some r1 =>
-          obtain ⟨a1, e1⟩ := r1
-          rw [parse_rep_succ _ _ _ _ _ _ hn h1] at h
-          rw [parse_rep_succ _ _ _ _ _ _ hn (ih g hfg' _ _ _ _ h1)]
-          exact ih g hfg' _ _ _ _ h
-
-/-- a trace is a valid value assignment of syntax `L`: it has the syntax's shape and every value is in range
-    (u(k) fits k ≤ 32 bits, ue(v) < 2^32, se(v) within 32 bits signed) -/
+/-- a trace is a valid value assignment of syntax `L`: it has the syntax's shape, every value is in range, it does not
+    use the reserved name, and no `seterr`/`abort` condition holds along it -/
 def TraceOK (f : Nat) (L : List Syn) (tr : Trace) : Prop :=
-  ∃ os a, ops f L [] tr = some (os, a, []) ∧ ∀ op ∈ os, op.OK
+  (∃ os a, ops f L [] tr = some (os, a, []) ∧ ∀ op ∈ os, op.OK) ∧ stopped tr = false
 
-/-- **NAL unit round trip**: the NAL unit an independent serialiser writes for a valid trace (emulation prevention,
-    rbsp trailing bits) parses back to exactly that trace, with no error, all bytes of the unit accounted for -/
+/-- **generic NAL unit round trip** (as before, for the extended DSL) -/
 theorem serialize_parse (f : Nat) (L : List Syn) (tr : Trace) (h : TraceOK f L tr) :
     ∃ nalu e, serialize f L tr = some nalu ∧ parseNalu f L nalu = some (tr, e) ∧ e.err = false ∧
       e.nread + e.rest.length = nalu.length := by
-  obtain ⟨os, a, hops, hok⟩ := h
+  obtain ⟨⟨os, a, hops, hok⟩, hst⟩ := h
   obtain ⟨used, hu1, hu2⟩ := ops_trace f L [] tr os a [] hops
   have ha : tr = a := by simp at hu1 hu2; rw [hu2, hu1]
   subst ha
@@ -194,43 +196,163 @@ theorem serialize_parse (f : Nat) (L : List Syn) (tr : Trace) (h : TraceOK f L t
     simp only [lowBits, List.nil_append]
     rw [← this, t3, hbw.2, fieldBits_allFields]
     simp [BW.abs, lowBits, bitsOfBytes]
-  obtain ⟨e', P', a1, a2, _, a4⟩ := parse_ops f L [] tr os tr [] _ P _ hops hok hinv habs
+  obtain ⟨e', P', a1, a2, _, a4⟩ := parse_ops f L [] tr os tr [] _ P _ hops hst hok hinv habs
   refine ⟨w.out, e', ?_, a1, a2.2.2.2.1, by simpa using a4⟩
   simp only [serialize, hops]
   rfl
+
+/-- more fuel never changes a result -/
+theorem parse_fuel_mono (f g : Nat) (hfg : f ≤ g) : ∀ (L : List Syn) (acc : Trace) (e : ER) r,
+    parse f L acc e = some r → parse g L acc e = some r := by
+  induction f generalizing g with
+  | zero => intro L acc e r h; simp [parse] at h
+  | succ f ih =>
+    intro L acc e r h
+    obtain ⟨g, rfl⟩ : ∃ g', g = g' + 1 := ⟨g - 1, by omega⟩
+    have hfg' : f ≤ g := by omega
+    cases hs : stopped acc with
+    | true => rw [parse_stopped _ _ _ _ hs] at h ⊢; exact h
+    | false =>
+    match L with
+    | [] => simpa [parse] using h
+    | .fld nm k :: rest => rw [parse_fld _ _ _ _ _ _ hs] at h ⊢; exact ih g hfg' _ _ _ _ h
+    | .flag nm :: rest => rw [parse_flag _ _ _ _ _ hs] at h ⊢; exact ih g hfg' _ _ _ _ h
+    | .ue nm :: rest => rw [parse_ue _ _ _ _ _ hs] at h ⊢; exact ih g hfg' _ _ _ _ h
+    | .se nm :: rest => rw [parse_se _ _ _ _ _ hs] at h ⊢; exact ih g hfg' _ _ _ _ h
+    | .seterr p :: rest => rw [parse_seterr _ _ _ _ _ hs] at h ⊢; exact ih g hfg' _ _ _ _ h
+    | .abort p :: rest =>
+      cases hp : p acc with
+      | false => rw [parse_abort_false _ _ _ _ _ hs hp] at h ⊢; exact ih g hfg' _ _ _ _ h
+      | true => rw [parse_abort_true _ _ _ _ _ hs hp] at h ⊢; exact h
+    | .cond p body :: rest =>
+      cases hp : p acc with
+      | false =>
+        rw [parse_cond_false _ _ _ _ _ _ hs hp] at h ⊢; exact ih g hfg' _ _ _ _ h
+      | true =>
+        cases h1 : parse f body acc e with
+        | none => rw [parse_cond_true_none _ _ _ _ _ _ hs hp h1] at h; cases h
+        | some r1 =>
+          obtain ⟨a1, e1⟩ := r1
+          rw [parse_cond_true _ _ _ _ _ _ hs hp h1] at h
+          rw [parse_cond_true _ _ _ _ _ _ hs hp (ih g hfg' _ _ _ _ h1)]
+          exact ih g hfg' _ _ _ _ h
+    | .rep cap n body :: rest =>
+      cases hn : min (n acc) cap with
+      | zero =>
+        rw [parse_rep_zero _ _ _ _ _ _ _ hs hn] at h ⊢; exact ih g hfg' _ _ _ _ h
+      | succ k =>
+        cases h1 : parse f body acc e with
+        | none => rw [parse_rep_succ_none _ _ _ _ _ _ _ hs hn h1] at h; cases h
+        | some r1 =>
+          obtain ⟨a1, e1⟩ := r1
+          rw [parse_rep_succ _ _ _ _ _ _ _ hs hn h1] at h
+          rw [parse_rep_succ _ _ _ _ _ _ _ hs hn (ih g hfg' _ _ _ _ h1)]
+          exact ih g hfg' _ _ _ _ h
+
+theorem fuelNeedL_pos (L : List Syn) : 1 ≤ fuelNeedL L := by
+  induction L with
+  | nil => simp [fuelNeedL]
+  | cons s r ih => simp only [fuelNeedL]; omega
+
+theorem parse_total_aux : ∀ (f : Nat) (L : List Syn) (acc : Trace) (e : ER), fuelNeedL L ≤ f →
+    ∃ acc' e', parse f L acc e = some (acc', e') ∧ acc'.length ≤ acc.length + maxEntriesL L := by
+  intro f
+  induction f with
+  | zero => intro L acc e h; have := fuelNeedL_pos L; omega
+  | succ f ih =>
+    intro L acc e hf
+    cases hs : stopped acc with
+    | true => exact ⟨acc, e, parse_stopped _ _ _ _ hs, by omega⟩
+    | false =>
+    match L with
+    | [] => exact ⟨acc, e, rfl, by omega⟩
+    | .fld nm k :: rest =>
+      simp only [fuelNeedL, fuelNeed, maxEntriesL, maxEntries] at hf ⊢
+      obtain ⟨a, e', h1, h2⟩ := ih rest (acc ++ [(nm, ((e.read k).2 : Int))]) (e.read k).1 (by omega)
+      exact ⟨a, e', by rw [parse_fld _ _ _ _ _ _ hs]; exact h1, by simp at h2; omega⟩
+    | .flag nm :: rest =>
+      simp only [fuelNeedL, fuelNeed, maxEntriesL, maxEntries] at hf ⊢
+      obtain ⟨a, e', h1, h2⟩ := ih rest (acc ++ [(nm, if e.readFlag.2 then 1 else 0)]) e.readFlag.1 (by omega)
+      exact ⟨a, e', by rw [parse_flag _ _ _ _ _ hs]; exact h1, by simp at h2; omega⟩
+    | .ue nm :: rest =>
+      simp only [fuelNeedL, fuelNeed, maxEntriesL, maxEntries] at hf ⊢
+      obtain ⟨a, e', h1, h2⟩ := ih rest (acc ++ [(nm, (e.readExpGolomb.2 : Int))]) e.readExpGolomb.1 (by omega)
+      exact ⟨a, e', by rw [parse_ue _ _ _ _ _ hs]; exact h1, by simp at h2; omega⟩
+    | .se nm :: rest =>
+      simp only [fuelNeedL, fuelNeed, maxEntriesL, maxEntries] at hf ⊢
+      obtain ⟨a, e', h1, h2⟩ := ih rest (acc ++ [(nm, e.readSignedGolomb.2)]) e.readSignedGolomb.1 (by omega)
+      exact ⟨a, e', by rw [parse_se _ _ _ _ _ hs]; exact h1, by simp at h2; omega⟩
+    | .seterr p :: rest =>
+      simp only [fuelNeedL, fuelNeed, maxEntriesL, maxEntries] at hf ⊢
+      obtain ⟨a, e', h1, h2⟩ := ih rest acc (if p acc then { e with err := true } else e) (by omega)
+      exact ⟨a, e', by rw [parse_seterr _ _ _ _ _ hs]; exact h1, by omega⟩
+    | .abort p :: rest =>
+      simp only [fuelNeedL, fuelNeed, maxEntriesL, maxEntries] at hf ⊢
+      cases hp : p acc with
+      | true => exact ⟨_, _, parse_abort_true _ _ _ _ _ hs hp, by simp⟩
+      | false =>
+        obtain ⟨a, e', h1, h2⟩ := ih rest acc e (by omega)
+        exact ⟨a, e', by rw [parse_abort_false _ _ _ _ _ hs hp]; exact h1, by omega⟩
+    | .cond p body :: rest =>
+      simp only [fuelNeedL, fuelNeed, maxEntriesL, maxEntries] at hf ⊢
+      have := fuelNeedL_pos rest
+      have := fuelNeedL_pos body
+      cases hp : p acc with
+      | false =>
+        obtain ⟨a, e', h1, h2⟩ := ih rest acc e (by omega)
+        exact ⟨a, e', by rw [parse_cond_false _ _ _ _ _ _ hs hp]; exact h1, by omega⟩
+      | true =>
+        obtain ⟨a1, e1, b1, b2⟩ := ih body acc e (by omega)
+        obtain ⟨a, e', h1, h2⟩ := ih rest a1 e1 (by omega)
+        exact ⟨a, e', by rw [parse_cond_true _ _ _ _ _ _ hs hp b1]; exact h1, by omega⟩
+    | .rep cap n body :: rest =>
+      simp only [fuelNeedL, fuelNeed, maxEntriesL, maxEntries] at hf ⊢
+      have := fuelNeedL_pos rest
+      have := fuelNeedL_pos body
+      cases hn : min (n acc) cap with
+      | zero =>
+        obtain ⟨a, e', h1, h2⟩ := ih rest acc e (by omega)
+        exact ⟨a, e', by rw [parse_rep_zero _ _ _ _ _ _ _ hs hn]; exact h1, by omega⟩
+      | succ k =>
+        have hk : k + 1 ≤ cap := by omega
+        have m1 : (k + 1) * (1 + fuelNeedL body) ≤ cap * (1 + fuelNeedL body) := Nat.mul_le_mul_right _ hk
+        have m2 : (k + 1) * maxEntriesL body ≤ cap * maxEntriesL body := Nat.mul_le_mul_right _ hk
+        rw [Nat.succ_mul] at m1 m2
+        obtain ⟨a1, e1, b1, b2⟩ := ih body acc e (by omega)
+        obtain ⟨a, e', h1, h2⟩ := ih (.rep k (fun _ => k) body :: rest) a1 e1 (by
+          simp only [fuelNeedL, fuelNeed]; omega)
+        simp only [maxEntriesL, maxEntries] at h2
+        exact ⟨a, e', by rw [parse_rep_succ _ _ _ _ _ _ _ hs hn b1]; exact h1, by omega⟩
+
+/-- **totality and bounded output on EVERY input**: with the syntactic fuel bound the parser always returns, whatever
+    the reader state (any bytes, any error state), and yields at most `maxEntriesL L` (+1 for the stop marker) values -/
+theorem parse_total (L : List Syn) : ∀ (f : Nat) (acc : Trace) (e : ER), fuelNeedL L ≤ f →
+    ∃ acc' e', parse f L acc e = some (acc', e') ∧ acc'.length ≤ acc.length + maxEntriesL L := by
+  intro f acc e h; exact parse_total_aux f L acc e h
 
 end Mp4ff.BitSyn
 
 namespace Mp4ff.AvcSps
 open Mp4ff.BitSyn Mp4ff.Bits
 
-/-- **AVC SPS**: every field of every valid SPS (all profiles, scaling lists, poc types 0-2, frame/field, cropping,
-    VUI with HRD) is parsed to the value that was coded -/
+/-- **AVC SPS round trip** for the extended syntax (bounded cycle / CPB counts) -/
 theorem sps_roundtrip (signedOffsets : Bool) (f : Nat) (tr : Trace) (h : TraceOK f (sps signedOffsets) tr) :
     ∃ nalu e, serialize f (sps signedOffsets) tr = some nalu ∧
       parseNalu f (sps signedOffsets) nalu = some (tr, e) ∧ e.err = false := by
   obtain ⟨nalu, e, h1, h2, h3, _⟩ := serialize_parse f _ tr h
   exact ⟨nalu, e, h1, h2, h3⟩
 
-
-/- ORIGINAL STATEMENT — FALSE as written:
-
-theorem dims_eq_std (t : Trace) (hf : t.nat "frame_mbs_only_flag" ≤ 1) : dims t = stdDims t
-
-Counterexample (`dims_counterexample` below): an arbitrary trace may carry separate_colour_plane_flag = 1 together
-with a chroma format 1 or 2 (here: baseline profile 66, chroma format inferred 1).  The standard's derivation then has
-ChromaArrayType = 0, CropUnitX = 1, CropUnitY = 2 - fmo, whereas the parser uses (2, 2 * (2 - fmo)):
-dims = some (158, 158), stdDims = some (159, 159).  The syntax itself excludes this (the flag is only coded when
-chroma_format_idc = 3), hence `dims_eq_std_sps`. -/
-
-def dimsCounterexample : Trace :=
-  [("profile_idc", 66), ("separate_colour_plane_flag", 1), ("frame_mbs_only_flag", 1), ("frame_cropping_flag", 1),
-   ("pic_width_in_mbs_minus1", 9), ("pic_height_in_map_units_minus1", 9), ("frame_crop_right_offset", 1),
-   ("frame_crop_bottom_offset", 1)]
-
-theorem dims_counterexample :
-    dimsCounterexample.nat "frame_mbs_only_flag" ≤ 1 ∧ dims dimsCounterexample = some (158, 158) ∧
-      stdDims dimsCounterexample = some (159, 159) := by decide
+/-- **the AVC SPS parser terminates on every byte string within a fixed number of steps and returns at most a fixed
+    number of values** (so time and memory are bounded by a constant plus the input itself) -/
+theorem sps_total (signedOffsets : Bool) (nalu : Bytes) :
+    ∃ t e, parseNalu (fuelNeedL (sps signedOffsets)) (sps signedOffsets) nalu = some (t, e) ∧
+      t.length ≤ maxEntriesL (sps signedOffsets) ∧ maxEntriesL (sps signedOffsets) ≤ 2000 ∧
+      fuelNeedL (sps signedOffsets) ≤ 6000 := by
+  obtain ⟨t, e, h1, h2⟩ := parse_total (sps signedOffsets) (fuelNeedL (sps signedOffsets)) [] { rest := nalu }
+    (Nat.le_refl _)
+  refine ⟨t, e, h1, by simpa using h2, ?_, ?_⟩
+  · cases signedOffsets <;> decide
+  · cases signedOffsets <;> decide
 
 /-- **picture size** (strongest variant for arbitrary traces): the parser's width/height is the standard's derivation
     whenever the trace does not combine separate_colour_plane_flag = 1 with chroma format 1 or 2 -/
@@ -264,11 +386,10 @@ theorem dims_eq_std_partial (t : Trace) (hf : t.nat "frame_mbs_only_flag" ≤ 1)
   · simp only [hc, if_false]
     rcases hfm with rfl | rfl <;> simp <;> omega
 
-/-- **picture size, for every valid SPS**: for every trace of the SPS syntax (i.e. everything the parser can return
-    for a well-formed SPS) the parser's width/height is the standard's derivation -/
+/-- picture size for every valid SPS (statement as before) -/
 theorem dims_eq_std_sps (signedOffsets : Bool) (f : Nat) (tr : Trace) (h : TraceOK f (sps signedOffsets) tr) :
     dims tr = stdDims tr := by
-  obtain ⟨os, a, hops, _⟩ := h
+  obtain ⟨⟨os, a, hops, _⟩, _⟩ := h
   obtain ⟨used, hu1, hu2⟩ := ops_trace f _ [] tr os a [] hops
   have ha : tr = a := by simp at hu1 hu2; rw [hu2, hu1]
   subst ha
@@ -278,4 +399,3 @@ theorem dims_eq_std_sps (signedOffsets : Bool) (f : Nat) (tr : Trace) (h : Trace
   decide
 
 end Mp4ff.AvcSps
-
